@@ -14,9 +14,10 @@ def pregen():
     i1, e1 = tabgen.crc32_table()
     i2, e2 = tabgen.strerror_table()
     i3, e3 = vlib.gen_module("StunUtils", [("stun/utils.c", ["stun_padding", "stun_align"], ["stun/utils.h"])])
-    if i1 is None or i2 is None or i3 is None:
-        return None, e1 or e2 or e3
-    return {"crc": i1, "strerror": i2, "utils": i3}, ""
+    i4, e4 = tabgen.utf8_skip_table()
+    if i1 is None or i2 is None or i3 is None or i4 is None:
+        return None, e1 or e2 or e3 or e4
+    return {"crc": i1, "strerror": i2, "utils": i3, "utf8": i4}, ""
 
 
 def build_model():
@@ -160,8 +161,15 @@ def gen_case(rng, i, kinds):
         cap = rng.choice([0, 1, 19, 20, 21, 23, 24, 25, 27, 28, 32, 44, 48, 63, 64, 100, 200, 576, 1280, 2048, rng.randrange(0, 2049)])
         user = bytes(rng.choice(b"abcdef:") for _ in range(rng.choice(ULEN)))
         key = bytes(rng.choice(b"pqrstu") for _ in range(rng.randrange(1, 9)))
-        if rng.random() < 0.15:
-            ops.append("SW %s" % hx(b"nice-verif"[:rng.randrange(1, 11)]))
+        if rng.random() < 0.25:
+            if rng.random() < 0.4:
+                ops.append("SW %s" % hx(b"nice-verif"[:rng.randrange(1, 11)]))
+            else:
+                # well-formed UTF-8 with multi-byte characters, around the 128-CHARACTER limit of stun_message_append_software (bytes != characters)
+                chars = ["a", "Z", "-", "\u00e9", "\u00fc", "\u4e2d", "\u20ac", "\U0001f600"]
+                nchar = rng.choice([1, 2, 7, 60, 127, 128, 129, 130, 200, rng.randrange(1, 260)])
+                w = [1, 1, 1, 2, 2, 2, 2, 1] if rng.random() < 0.7 else [6, 6, 6, 1, 0, 0, 0, 0]
+                ops.append("SW %s" % hx("".join(rng.choices(chars, w, k=nchar)).encode("utf-8")))
         ops.append("%s %d %d %s" % (rng.choice(["IR", "IR", "II"]), rng.choice([1, 3, 4, 8, 9]), cap, hx(rand_txid(rng))))
         napp = rng.randrange(0, 25) if kind == "build" else rng.randrange(0, 6)
         if kind == "roundtrip":
@@ -238,7 +246,7 @@ def gen_case(rng, i, kinds):
     elif kind == "resp":
         key = bytes(rng.choice(b"pqrstu") for _ in range(rng.randrange(1, 9)))
         user = b"ab:cd"
-        nreq = rng.randrange(1, 4)
+        nreq = rng.randrange(1, 6)
         txs = []
         for _ in range(nreq):
             tx = rand_txid(rng); meth = rng.choice([1, 3, 4])
@@ -282,6 +290,26 @@ def gen_case(rng, i, kinds):
                 ops.append("V - 1 %s" % hx(b))      # replay
         if rng.random() < 0.3:
             ops.append("FG %s" % hx((COOKIE + txs[0][0][4:]) if compat in (1, 2) else txs[0][0]))
+        if rng.random() < 0.5:
+            # requests answered / given up in any order: a slot freed in front of a transaction still in flight, then that transaction is
+            # forgotten (what conncheck.c, discovery.c and udp-turn.c do on timeout) and its late answer must be unmatched
+            order = list(range(len(txs))); rng.shuffle(order)
+            for j in order[:rng.randrange(1, len(txs) + 1)]:
+                tx, meth, k = txs[j]
+                m = Msg(2, meth, tx, compat, flags)
+                m.add(A_XMAP, bytes([0, 1, 1, 2, 3, 4, 5, 6]))
+                if k is not None:
+                    m.mi(hashlib.md5(user + b":realm:" + k).digest() if flags & F_LONG else k)
+                if compat in (1, 2) and flags & F_FPR:
+                    m.fpr()
+                b = m.raw()
+                fid = (COOKIE + tx[4:]) if compat in (1, 2) else tx
+                if rng.random() < 0.5:
+                    ops.append("FG %s" % hx(fid))
+                ops.append("V - 1 %s" % hx(b))
+                if rng.random() < 0.4:
+                    ops.append("FG %s" % hx(fid))
+                    ops.append("V - 1 %s" % hx(b))
     elif kind == "hostile":
         n = rng.choice([0, 1, 3, 4, 19, 20, 21, 24, 28, 40, 44, 48, 100, rng.randrange(0, 300)])
         b = bytearray(rng.randrange(256) for _ in range(n))
@@ -394,6 +422,16 @@ def expected_mi(buf, attrs, mi_off, compat, key):
     return hmac.new(key, m, hashlib.sha1).digest()
 
 
+def software_cut(b):
+    """RFC 5389 section 15.10: fewer than 128 characters (UTF-8) - whole characters of the configured string (well-formed input)."""
+    i = n = 0
+    while i < len(b) and n < 128:
+        c = b[i]
+        i += 1 if c < 0xc0 else 2 if c < 0xe0 else 3 if c < 0xf0 else 4
+        n += 1
+    return b[:i]
+
+
 def oracle(line, out, want=("C04", "C05", "C06", "C07")):
     """Implementation-side oracles.  Returns None or a description of the violated clause."""
     if "FAULT" in out:
@@ -407,6 +445,7 @@ def oracle(line, out, want=("C04", "C05", "C06", "C07")):
     reserved_appended = False
     built_by = None
     validated = {}
+    software, user_software = None, False
     for op, g in zip(ops, groups):
         name = op[0]
         if name == "VL" and "C06" in want:
@@ -419,7 +458,15 @@ def oracle(line, out, want=("C04", "C05", "C06", "C07")):
                 got = int(g[0].split("=")[1]); exp = spec_fast(b, op[1] != "0")
                 if got != exp:
                     return "vectored pre-check says %d for split %s but %d for the contiguous bytes" % (got, [len(p) for p in parts], exp)
+        elif name == "FG" and "C04" in want:
+            fid = unhx(op[1])
+            ks = [k for k in outstanding if k[0] == fid and outstanding[k] > 0]
+            if ks:
+                outstanding[ks[0]] -= 1       # given up: a late answer must from now on be unmatched (the clause on accepted responses below)
+        elif name == "SW":
+            software = unhx(op[1]).split(b"\0")[0]
         elif name in ("IR", "II", "IS", "IE"):
+            user_software = False
             reserved_appended = False
             built_by = name
             cur_cap = int(op[2] if name in ("IR", "II") else op[1]); appended = []; cur_len = None   # init may add SOFTWARE / ERROR-CODE
@@ -429,6 +476,8 @@ def oracle(line, out, want=("C04", "C05", "C06", "C07")):
             r, ln = g[0][2:].split(":")
             if name in ("AB", "A32", "A64", "AF") and int(op[1], 16) in (A_MI, A_FPR):
                 reserved_appended = True
+            if name in ("AB", "A32", "A64", "AF") and int(op[1], 16) == 0x8022:
+                user_software = True
             if "C07" in want and cur_cap is not None:
                 if int(ln) > cur_cap:
                     return "after append the message length %s exceeds the %d-byte buffer" % (ln, cur_cap)
@@ -444,6 +493,13 @@ def oracle(line, out, want=("C04", "C05", "C06", "C07")):
                 p = parse(b, not padded)
                 if p is None:
                     return "finished message is not well-formed per the independent parser: %s" % hexs[:120]
+            if n and "C07" in want and software is not None and not user_software and compat in (1, 2):
+                p = parse(b, not padded)
+                if p and p[3] and p[3][0][0] == 0x8022:
+                    exp = software_cut(software)
+                    if bytes(p[3][0][1]) != exp:
+                        return ("SOFTWARE attribute of the finished message holds %d bytes (%s...), the configured string cut to at most 128 whole characters is %d bytes (%s...)"
+                                % (len(p[3][0][1]), bytes(p[3][0][1]).hex()[:40], len(exp), exp.hex()[:40]))
             if n and ("C04" in want or "C07" in want) and op[1] not in ("n", "e") and not reserved_appended and built_by == "IR":
                 # a request the library finished with a key carries the MESSAGE-INTEGRITY that key (long-term: md5 of ITS OWN
                 # USERNAME:REALM:password) gives over the RFC prefix
